@@ -715,6 +715,9 @@ def _str_startswith(ex, st, args, kw, node):
 
 def _str_split(ex, st, args, kw, node):
     """s.split(sep): an opaque list of strings"""
+    m = getattr(ex.k, "str_split_model", None) if ex.k is not None else None
+    if m is not None:
+        return m(ex, st, args, kw, node)       # a contract may say how many parts a particular line has (one title per column)
     from . import objects
     n = ex.fresh("n_parts", I)
     st.pc.append(n >= 1)
